@@ -86,6 +86,22 @@ def make(rng, entry, charset='E', nfaults=None, multi=None, alphabet=V.PLAIN, fa
             s_['st']['vals'][1] = bad
             s_['se']['vals'][1] = bad
             tfaults.append((-1, 'st02_element_error'))
+    if trailer_faults and rng.random() < 0.12:
+        # structural damage between the envelope segments: a stray segment outside any set, or a trailer that never comes
+        kind = rng.choice(['junk_gap', 'junk_gap', 'drop_se', 'drop_ge'])
+        want = {'junk_gap': ('ISA', 'GS', 'SE', 'GE', 'IEA'), 'drop_se': ('SE',), 'drop_ge': ('GE',)}[kind]
+        i = rng.choice([k for k, s_ in enumerate(doc) if s_['id'] in want])
+        if kind == 'junk_gap':
+            doc.insert(i + 1, {'id': 'ZZZ', 'vals': ['1'], 'uid': -1})
+            at, d = i + 1, 1
+        else:
+            del doc[i]
+            at, d = i, -1
+        for f in applied:
+            if f['line'] >= at:
+                f['line'] += d
+        tfaults = [(k + d if k >= at else k, n) for k, n in tfaults]
+        tfaults.append((i, kind))
     return {'doc': doc, 'applied': applied, 'tfaults': tfaults, 'shape': list(g.shape), 'entry': entry}
 
 
